@@ -343,9 +343,38 @@ def p4(model: Model, rep: Report):
         ps = PathEnumerator(ev3).function_paths(g, self_cls=C)
         s = sym(g.self_name)
         init = sym(g.param_names[1])
+        from ..listflow import contents
+        from .common import devar, star_segments
+
+        def seg_comps(t, depth=0):
+            """the comprehensions a list is made of; a group delegated to another method of the description is read there"""
+            t = devar(t)
+            if t[0] in ("list", "tuple") and any(x[0] == "star" for x in t[1]):
+                return [c for sg in star_segments(t) for c in seg_comps(sg, depth)]
+            if t[0] == "comp":
+                return [t]
+            if t[0] == "concat":
+                return [c for sg in t[1] for c in seg_comps(sg, depth)]
+            if t[0] == "call" and isinstance(t[1], tuple) and t[1][0] == "attr" and t[1][1] == s and depth < 2:
+                h = C.resolve(t[1][2])
+                if h is not None and "abstractmethod" not in h.decorators:
+                    try:
+                        hv = Evaluator(model, inline_methods=False).value_of(h, self_cls=C)
+                    except Unsupported:
+                        return []
+                    given = dict(t[3])
+                    hp = [n_ for n_ in h.param_names if n_ != h.self_name]
+                    given.update(dict(zip(hp, t[2])))
+                    mp = {sym(h.self_name): s}
+                    mp.update({sym(k_): v_ for k_, v_ in given.items() if k_ != "**"})
+                    return seg_comps(subst(hv, mp), depth + 1)
+            return []
         for p in [q_ for q_ in ps if q_.exit == "return"]:
-            exts = [c for e in p.events if e.kind == "effect" for c in find_calls(e.term, "extend")]
-            comps = [c[2][0] for c in exts if c[2] and c[2][0][0] == "comp"]
+            if p.value is not None and p.value[0] == "var":
+                segs = contents(p, p.value) or []
+            else:
+                segs = [p.value] if p.value is not None else []
+            comps = [c for sg in segs for c in seg_comps(sg)]
             wiring = []
             for comp in comps:
                 elt = comp[2]
